@@ -365,3 +365,24 @@ def c09_units(tier, seed):
 PROPS["C09"] = dict(units=c09_units, bounds_text="histories: every sequence of 3 calls from a 7-entry menu (two years' tables, conversions, recovered panics on invalid input and on an absurd year) before the observed call, for each menu entry as observed call; concurrency: one critical-section step of NewLunarYear under arbitrary interference at every lock acquisition (cache empty / other year / same year), lock released on every path incl. panics; every read-only accessor free of unprotected writes to shared memory (lockset argument: no two concurrent readers can race)",
                     outside="goroutine scheduling below critical-section granularity is covered only through the lockset argument (all accesses to the cache are inside the lock; readers write nothing); weak memory; HolidayUtil.Fix (a documented mutator); more than 3-call histories",
                     assumptions=["sync.Mutex is modelled as a held flag; Lock on a held mutex in a sequential history is reported as the library being blocked", "environment model at Lock: protected state is re-chosen within the cache invariant (nil, or a table that equals the sequentially computed table of its year)"])
+
+
+def c10_units(tier, seed):
+    q = tier == "quick"
+    us = []
+    years = [2024] if q else [1990, 2017, 2020, 2021, 2024]
+    for Y in years:
+        for m in range(1, 13):
+            for sect in (1, 2):
+                for base in ((Y - 3,) if q else (Y - 3, 1900)):
+                    us.append(dict(id=f"C10a[Y={Y},m={m},sect={sect},base={base},win=1]", harness="calendar.VH_C10_Reverse",
+                                   params={"Y": Y, "SECT": sect, "BASE": base, "WIN": 1}, concrete={"v_m": m}))
+            if not q and Y in (2020, 2024):
+                us.append(dict(id=f"C10a[Y={Y},m={m},sect=1,base={Y-3},win=0]", harness="calendar.VH_C10_Reverse",
+                               params={"Y": Y, "SECT": 1, "BASE": Y - 3, "WIN": 0}, concrete={"v_m": m}))
+    return us
+
+
+PROPS["C10"] = dict(units=c10_units, bounds_text="every second of the three days around the Jie of each month of the listed years (quick: 2024; thorough: 1990, 2017, 2020, 2021, 2024), both day-boundary conventions, base year = year-3 (thorough also the default 1900); thorough adds the remaining days of the month for 2020/2024 under sect 1; candidate-year loop unwound concretely (the clock's current year is read from the host)",
+                    outside="years not listed; the days away from the Jie in quick; time.Now() beyond the host clock's year",
+                    unit_timeout_ms={"quick": 1500000, "thorough": 3600000})
